@@ -266,7 +266,7 @@ func (r *renderer) expr(n *Node) string {
 }
 
 // Layouts mirrors MtailLang!Layouts.
-var Layouts = []string{"2006-01-02T15:04:05Z07:00", "01/02/2006", "02/01/2006", "Jan _2 15:04:05"}
+var Layouts = []string{"2006-01-02T15:04:05Z07:00", "01/02/2006", "02/01/2006", "01/02"}
 
 func (r *renderer) block(b *strings.Builder, ss []*Node, ind string) {
 	for _, s := range ss {
